@@ -4,6 +4,7 @@ import (
 	"context"
 	"errors"
 	"fmt"
+	"os"
 	"sort"
 	"testing"
 	"time"
@@ -151,7 +152,8 @@ func runWorld(t *testing.T, r *simkit.Run) {
 				}
 				return 200 * time.Microsecond
 			},
-			Done: func() bool { return q.tainted },
+			Done:    func() bool { return q.tainted },
+			Verbose: os.Getenv("VERIF_SCHED_VERBOSE") == "1",
 			Idle: func() time.Duration {
 				if q.opsLeft <= 0 && len(q.busy) == 0 && q.w.NumPending() == 0 {
 					return 0
